@@ -520,7 +520,9 @@ def gen_histories(tier):
 CHECK_KW = {
     'type': [None, 'int', ('int', 'str')],
     'instance_of': [None, 'int', ('int', 'str')],
-    'value': [None, ('equal_to', 3), ('one_of', (3, 'a'))],
+    'value': [None, ('equal_to', 3), ('one_of', (3, 'a')),
+              # the collection kinds a caller may pass for one_of, with one and with two members
+              ('one_of:set', (3,)), ('one_of:set', (3, 'a')), ('one_of:frozenset', (3,)), ('one_of:dict', (3,)), ('one_of:list', (3,)), ('one_of:tuple', (3,))],
     'validate': [None, 'true', 'false', 'none', 'raises', ('pos', 'false'), ('pos', 'true')],
     'default': [None, 'D'],
 }
@@ -541,7 +543,12 @@ def run_check(case):
     if kw['instance_of']:
         kwargs['instance_of'] = ty(kw['instance_of'])
     if kw['value']:
-        kwargs[kw['value'][0]] = kw['value'][1]
+        vname, vmembers = kw['value']
+        if ':' in vname:
+            mk = {'set': set, 'frozenset': frozenset, 'dict': lambda m: dict.fromkeys(m, 'x'), 'list': list, 'tuple': tuple}[vname.split(':')[1]]
+            kwargs['one_of'] = mk(vmembers)
+        else:
+            kwargs[vname] = vmembers
     if kw['validate']:
         v = kw['validate']
         kwargs['validate'] = [Pred(n) for n in v] if isinstance(v, tuple) else Pred(v)
@@ -563,9 +570,13 @@ def run_check(case):
         if kw['instance_of'] and not isinstance(sub, ty(kw['instance_of'])):
             fails.append('instance_of')
         if kw['value']:
-            vals = (kw['value'][1],) if kw['value'][0] == 'equal_to' else kw['value'][1]
-            if sub not in vals:
-                fails.append('value')
+            vals = (kw['value'][1],) if kw['value'][0] == 'equal_to' else kwargs['one_of']
+            try:
+                if sub not in vals:
+                    fails.append('value')
+            except TypeError:
+                # an unhashable target against a set / dict: the membership test itself raises in Python
+                return R(None, 'membership-raises', nontrivial=False)
         validators = kw['validate']
         if not any(kw[k] for k in ('type', 'instance_of', 'value', 'validate')):
             if not bool(sub):
